@@ -28,6 +28,7 @@ from harness import lean_audit  # noqa
 
 PLUGINS = {
     "C01": "harness.p_m1", "C02": "harness.p_m1",
+    "C07": "harness.p_m4", "C08": "harness.p_m4", "C09": "harness.p_m4",
     "C05": "harness.p_m3", "C06": "harness.p_m3", "C20": "harness.p_m3",
 }
 
@@ -209,7 +210,9 @@ def main(argv=None):
         best = min(mon_new, key=lambda f: len(json.dumps(f.get("replay", {}), default=str)))
         if hasattr(mod, "shrink"):
             try:
-                best = mod.shrink(prop, best) or best
+                sres = run_jobs(modname, [{"kind": "shrink", "prop": prop, "failure": best}], 300)
+                if sres and sres[0] and "failure" in sres[0]:
+                    best = sres[0]["failure"] or best
             except Exception:
                 pass
         path = write_replay(prop, {"property": prop, "kind": "monitor", "verdict": best.get("msg"),
